@@ -1,7 +1,9 @@
 (* C10 — key/signature size tables agree everywhere (and with the specification). *)
 From Model Require Import Bytes Tables.
 From Spec Require Import SpecTables.
-From Proofs Require Import TableProofs.
+From Model Require Import Cert KAC.
+From Spec Require Import Wire.
+From Proofs Require Import TableProofs KacProofs.
 Open Scope Z_scope.
 
 (* for every one of the 65,536 codes, every lookup the library offers agrees with the
@@ -37,6 +39,20 @@ Qed.
 (* the signature-length lookup takes an int: outside 0..65535 it is an error, never a size *)
 Theorem C10_sig_length_out_of_range : forall t, t < 0 \/ t > 65535 -> sig_length t = None.
 Proof. exact sig_length_out_of_range. Qed.
+(* for every supported pair of types the encryption key occupies the start of the 384-byte
+   block, the signing key its end, the padding exactly the bytes between, and the declared
+   sizes equal the lengths of the keys actually returned *)
+Theorem C10_key_block_layout : forall (s c : N) (cl sl : nat) pub pad spk extra r,
+  In s [0; 1; 2; 7; 8; 11]%N -> In c [0; 4; 5; 6; 7]%N ->
+  spec_crypto_len (Z.of_N c) = Some (Z.of_nat cl) -> spec_spk_len (Z.of_N s) = Some (Z.of_nat sl) ->
+  length pub = cl -> length spk = sl -> length pad = (384 - cl - sl)%nat ->
+  (N.of_nat (length extra) < 65532)%N ->
+  exists k, read_keys_and_cert (spec_identity pub pad spk (spec_keycert s c extra) ++ r) = Ok (k, r) /\
+            k_pub k = Some pub /\ k_pad k = pad /\ k_spk k = Some spk /\
+            kc_signing_type (k_kc k) = Z.of_N s /\ kc_crypto_type (k_kc k) = Z.of_N c /\
+            kc_crypto_size_of (k_kc k) = Z.of_nat (length pub) /\ kc_signing_pubkey_size (k_kc k) = Z.of_nat (length spk).
+Proof. exact spec_identity_accepted. Qed.
+Print Assumptions C10_key_block_layout.
 Example C10_nonvacuous : sig_length 7 = Some 64 /\ kc_spk_size 11 = Some 32 /\ kc_crypto_size 4 = Some 32
   /\ sig_length 9 = None /\ off_sig_size 9 = 0.
 Proof. vm_compute. auto. Qed.
